@@ -194,5 +194,5 @@ PROPERTY_ASSUMPTIONS["C19"] = [
     "agreement with the ledger's spendable outputs, pending transactions, on_chain_reorganization (NFT handling) and window expiry are outside this revision's claim",
 ]
 M("C19", "c19_add_delete_slip", ["Wallet::add_slip", "Wallet::delete_slip"], "wallets with 0..=2 slips in every layout; the slip added / deleted fully symbolic (possibly already present / absent)", covers=10)
-M("C19", "c19_find_slips_for_staking", ["Wallet::find_slips_for_staking", "WalletSlip::is_staking_slip_unlocked", "WalletSlip::to_slip"], "wallets with 1..=3 slips in every unspent/staking layout; staking amount, unlock heights symbolic; Ok and Err paths", covers=8)
-M("C19", "c19_generate_slips", ["Wallet::generate_slips"], "wallets with 1..=3 unspent slips; requested amount, latest block id, genesis period symbolic; conservation of inputs/change in u128", covers=3)
+M("C19", "c19_find_slips_for_staking", ["Wallet::find_slips_for_staking", "WalletSlip::is_staking_slip_unlocked", "WalletSlip::to_slip"], "wallets with 1..=2 slips (thorough 3) in every unspent/staking layout; staking amount, unlock heights symbolic; Ok and Err paths", covers=5)
+M("C19", "c19_generate_slips", ["Wallet::generate_slips"], "wallets with 1..=2 unspent slips (thorough 3); requested amount, latest block id, genesis period symbolic; conservation of inputs/change in u128", covers=2)
